@@ -12,6 +12,6 @@ PROPERTIES = {
             "L-setorder: nothing is assumed about the iteration order of a set (covers hash randomisation and address-dependent hashes)",
             "random.getstate/setstate and numpy.random.get_state/set_state save and restore the complete generator state",
         ],
-        not_reached=["nondeterminism inside trimesh/shapely/FCL", "findMeshInteriorPoint / the ray shuffle in canSee (private generators with constant seeds)", "WeightedAcceptanceChecker's time-dependent ordering (verdict order-independence is C02's sortedRequirements contract)"],
+        not_reached=["nondeterminism inside trimesh/shapely/FCL", "the ray shuffle in canSee (private generator with a constant seed; findMeshInteriorPoint is under contract)", "WeightedAcceptanceChecker's time-dependent ordering (verdict order-independence is C02's sortedRequirements contract)"],
     )
 }
